@@ -266,7 +266,7 @@ func (fx *FnCtx) callWrites(li *loopInfo, cc *ssa.CallCommon) {
 		}
 		return
 	}
-	if c := fx.eng.CS.Funcs[key]; c != nil && !c.LockOnly {
+	if c := fx.eng.CS.Funcs[key]; c != nil && !c.LockOnly && !c.Inline {
 		if c.Pure || (c.HasFrame && len(c.Assigns) == 0) {
 			return
 		}
